@@ -116,7 +116,7 @@ JudgeFaulty(r, ev) ==
       f == p.nodes[n].fault
       op == p.nodes[n].op
       failed == ev.err # "" /\ ~ev.ctxerr
-      needMsg == f.mode = "panic" \/ (f.mode = "error" /\ op \in {"readerfunc", "writerfunc"})
+      needMsg == f.mode = "panic" \/ (f.mode \in {"error", "errrows"} /\ op \in {"readerfunc", "writerfunc"})
   IN IF Has(ev, "panic") THEN <<Fail(r, ev, "RunPanicked", ev.panic)>>
      ELSE IF f.persist THEN
           (IF failed THEN <<>>
